@@ -11,7 +11,7 @@ ASSUMPTIONS = base.ASSUMPTIONS + ['"produced object" = an Fxp returned to the ca
                                   'programs are generated on the implementation side; the Lean side contributes the verified checker and the reachability theorem for the model\'s operation set']
 RULE = ('PROG lines: a seed determines a random program (<=12 steps, pool of <=6 live objects, formats up to 20 bits quick / 52 thorough) over construct / call / set_val / setitem / resize / like / like= / conversion / + - * / // % with every sizing policy, '
         'constants, out/out_like, neg/abs, shifts in 3 modes, bitwise, indexing, sum/cumsum/max/min/dot/transpose/clip, scaled objects; after every step the attributes val, n_int, upper, lower, precision, dtype of every returned Fxp are judged by the verified checker. '
-        'SX lines: floats up to +-1.7e308 and Python ints up to +-2^1000 under saturate into n_frac>=0 formats: the code must be the bound on the input\'s own side. non-trivial = every program with at least one derived object')
+        'RZ lines: an object of a random format resized with every combination of signed / n_word / n_frac / n_int / dtype= (fxp, S/U, Q/UQ spellings): resulting signed, n_word, n_frac, n_int against the model of the size resolution. SX lines: floats up to +-1.7e308 and Python ints up to +-2^1000 under saturate into n_frac>=0 formats: the code must be the bound on the input\'s own side. non-trivial = every program with at least one derived object')
 TECHNIQUE = 'Lean 4 theorems (every model operation returns in-range codes: wf_step for each constructor of the operation set, wf_reachable by induction over programs; saturate picks the own-side bound for any magnitude) + verified well-formedness checker run on every object returned by random programs'
 LEVEL_TEXT = ('Machine-checked: every operation of the model (store, arithmetic into any target, conversion, unary minus/abs, bitwise, shifts, reductions) returns codes inside the range of the result format — by induction over programs every reachable object is well-formed — and saturate '
               'stores the bound on the input\'s own side for inputs of any magnitude. On the implementation every object returned by random programs of public operations is judged by the verified checker (range, n_int, upper/lower/precision through scale and bias, dtype string).')
@@ -219,13 +219,50 @@ def exec_SX(t):
         return [exc_token(e)]
 
 
-EXEC = {'PROG': exec_PROG, 'SX': exec_SX}
+def exec_RZ(t):
+    s, n, f = t[0] == 's', int(t[1]), int(t[2])
+    opt = lambda tok, conv: None if tok == '-' else conv(tok)
+    kw = dict(signed=opt(t[3], lambda v: v == '1'), n_word=opt(t[4], int), n_frac=opt(t[5], int), n_int=opt(t[6], int), dtype=opt(t[7], str))
+    kw = {k: v for k, v in kw.items() if v is not None}
+    try:
+        x = Fxp(None if len(t[7]) % 2 else np.zeros(2, dtype=int), s, n, f)
+        x.resize(**kw)
+        assert x.dtype.replace('-complex', '') == 'fxp-%s%d/%d' % ('s' if x.signed else 'u', x.n_word, x.n_frac), 'dtype string %s' % x.dtype
+    except Exception as e:
+        return [exc_token(e)]
+    return ['s' if x.signed else 'u', str(x.n_word), str(x.n_frac), str(x.n_int)]
+
+
+EXEC = {'PROG': exec_PROG, 'SX': exec_SX, 'RZ': exec_RZ}
 
 
 def generate(tier, rng):
     maxw = 20 if tier == 'quick' else 52
     for _ in range(2500 if tier == 'quick' else 60000):
         yield 'PROG %d %d %d' % (rng.getrandbits(40), rng.choice([8, maxw, maxw]), rng.randint(3, 12))
+    # size resolution of resize: every combination of the five arguments
+    for _ in range(1500 if tier == 'quick' else 40000):
+        so, no_, fo = rand_fmt(rng, 24)
+        s2, n2, f2 = rand_fmt(rng, 24)
+        i2 = n2 - f2 - int(s2)
+        combo = rng.choice(['s', 'w', 'f', 'sw', 'sf', 'wf', 'swf', 'if', 'sif', 'wi', 'swi', 'i', 'si', 'swfi', 'dtype', 'dtype', 'dtype', 'dtype+s', 'dtype+w'])
+        sg = '1' if s2 else '0'
+        a = ['-'] * 5
+        if combo.startswith('dtype'):
+            sp = ['fxp-%s%d/%d' % ('s' if s2 else 'u', n2, f2)]
+            if i2 + int(s2) >= 0 and f2 >= 0:
+                sp += ['%s%d.%d' % (tag, i2 + int(s2), f2) for tag in (['S', 'Q', 'q'] if s2 else ['U', 'UQ', 'uq'])]
+            a[4] = rng.choice(sp)
+            if combo == 'dtype+s':
+                a[0] = sg
+            if combo == 'dtype+w':
+                a[1] = str(n2)
+        else:
+            if 's' in combo: a[0] = sg
+            if 'w' in combo: a[1] = str(n2)
+            if 'f' in combo: a[2] = str(f2)
+            if 'i' in combo: a[3] = str(i2)
+        yield 'RZ %s %d %d %s' % ('s' if so else 'u', no_, fo, ' '.join(a))
     for _ in range(1500 if tier == 'quick' else 40000):
         s = rng.random() < 0.5
         n = rng.randint(1 + int(s), 52)
